@@ -6,6 +6,10 @@ props=[json.loads(l) for l in open('/verif/properties.jsonl')]
 listed=set(l.split()[0] for l in subprocess.run(['/verif/bin/vischeck','-list'],capture_output=True,text=True).stdout.splitlines() if l.strip())
 TECH="static analysis over go/types + go/ssa of /repo's current tree: "
 CLAIMED={
+ 'C14':("table extraction and comparison (opcode maps, switch case sets, decoder success-path argument signatures vs every NewLine call site in the repository and the ParseHandler callback types), zone bounds of the primitive decoders, encoder limit guards",
+        "Decides format agreement between the separate codecs on finite tables: opcode tables inverse and complete, per-opcode argument signatures identical at the decoder, at every encoder call site and in the disassembler callbacks, primitive framing limits agree and cannot wrap, the integer encoder keeps low-order bytes. Round-trip equality of values over the full domains is value-level and not decided."),
+ 'C16':("backward value flow from symbol writers to numeric grammar captures through int-to-string conversions; extraction of the batch expansion from SSA and comparison with the documented table; opcode-identity flow",
+        "Decides three structural clauses of assembler fidelity: no numeric re-rendering of selectors (two known findings), batch expansion identical to the documented table with source order preserved, opcode taken from the line's mnemonic. Per-program translation fidelity in general is not decided."),
  'C17':("acceptance edges (format and byte-length tests on the Exec parameter) as CFG cuts before every effectful instruction of Exec; execd/initd gates in Flush and Finish",
         "Decides for every input and every position in a history that nothing with effects is reachable in Exec before both refusal points were passed on their success side, that refused bytes flow only into validators and logs, that output needs a prior execution and that a refused request cannot cause a save. Transcript equality of the two histories is not decided."),
  'C18':("origin analysis of every context argument, injection-before-use cuts with ordering against state establishment, key/type agreement of context writers and readers, translation-key production in ToKey",
